@@ -164,7 +164,7 @@ func (e *Eng) rangeLoop(s *ast.RangeStmt, st *State) []Out {
 		// value var is in scope for invariants only inside the body
 		ent.vars[valObj] = e.symFor(valObj.Name(), valObj.Type(), ent)
 	}
-	ent.ghost["$i"] = Val{K: KInt, T: e.idxLit(0), GoT: intT}
+	ent.ghost["_i"] = Val{K: KInt, T: e.idxLit(0), GoT: intT}
 	e.checkInvs(ls, no, "init", ent, pos)
 	// arbitrary iteration
 	h := st.clone()
@@ -179,11 +179,11 @@ func (e *Eng) rangeLoop(s *ast.RangeStmt, st *State) []Out {
 	if valObj != nil {
 		h.vars[valObj] = e.symFor(valObj.Name(), valObj.Type(), h)
 	}
-	h.ghost["$i"] = iv
+	h.ghost["_i"] = iv
 	e.assumeInvs(ls, h, pos)
 	ex := h.clone()
 	ex.assume("(= " + i + " " + n + ")")
-	delete(ex.ghost, "$i")
+	delete(ex.ghost, "_i")
 	outs := []Out{{st: ex, kind: Normal}}
 	b := h.clone()
 	b.assume(e.lt(i, n))
@@ -199,15 +199,15 @@ func (e *Eng) rangeLoop(s *ast.RangeStmt, st *State) []Out {
 			if keyObj != nil {
 				nx.vars[keyObj] = ni
 			}
-			nx.ghost["$i"] = ni
+			nx.ghost["_i"] = ni
 			e.checkInvs(ls, no, "preserve", nx, pos)
 		case o.kind == Break && o.label == "":
 			o.kind = Normal
-			delete(o.st.ghost, "$i")
+			delete(o.st.ghost, "_i")
 			o.st.defers = st.defers
 			outs = append(outs, o)
 		default:
-			delete(o.st.ghost, "$i")
+			delete(o.st.ghost, "_i")
 			o.st.defers = append(append([]deferred(nil), st.defers...), o.st.defers...)
 			outs = append(outs, o)
 		}
